@@ -473,16 +473,17 @@ func (g *Graph) Cyclic() bool {
 // ---- generator ----
 
 type Options struct {
-	Docs       int  // number of documents (1..6)
-	Defs       int  // definitions per document
-	Elements   bool // parameters / responses / path items with references
-	Cycles     bool // allow back edges
-	NastyNames bool
-	HTTP       bool    // allow an http-hosted document
-	Twins      bool    // documents sharing their path with the root on other hosts / schemes, prefix-named documents
-	Spellings  bool    // vary the spelling of references (./, absolute, …)
-	NestedPtrs bool    // references to nested pointer targets
-	RefP       float64 // probability that a sub-schema position holds a $ref
+	Docs        int  // number of documents (1..6)
+	Defs        int  // definitions per document
+	Elements    bool // parameters / responses / path items with references
+	Cycles      bool // allow back edges
+	NastyNames  bool
+	HTTP        bool    // allow an http-hosted document
+	SwaggerOnly bool    // only the sub-schema keywords of the Swagger 2.0 schema object (documents valid against the meta-schema)
+	Twins       bool    // documents sharing their path with the root on other hosts / schemes, prefix-named documents
+	Spellings   bool    // vary the spelling of references (./, absolute, …)
+	NestedPtrs  bool    // references to nested pointer targets
+	RefP        float64 // probability that a sub-schema position holds a $ref
 }
 
 type node struct {
@@ -645,6 +646,10 @@ func Generate(r *rand.Rand, o Options) *World {
 		}
 		s := wire.ObjV(wire.M("type", wire.StrV("object")))
 		pos := []string{"properties", "items", "allOf", "additionalProperties", "not", "anyOf", "oneOf", "patternProperties", "dependencies", "additionalItems", "definitions", "itemsTuple"}
+		if o.SwaggerOnly {
+			// the schema object of Swagger 2.0 knows only these sub-schema keywords
+			pos = []string{"properties", "items", "allOf", "additionalProperties"}
+		}
 		for i := 0; i < 1+r.Intn(3); i++ {
 			p := pos[r.Intn(len(pos))]
 			if i == 0 && r.Intn(2) == 0 {
